@@ -82,6 +82,7 @@ class World(object):
         self.kernel = None         # set by Kernel
         self.child_setup = None    # callable(args, kwargs) -> (pid, master_fd)
         self.popen_setup = None    # callable(cmd) -> (proc, stdin_w, stdout_r)
+        self.on_spawn = None       # callable(child) for objects created inside the CUT (run())
         self.short_plan = scenario.get('short_writes') or []
         self.ptyprocs = []
         self.children = []         # (proc, pty, slave) per spawned pty child
